@@ -589,17 +589,20 @@ def run_stage(ctx: Ctx, stage: Stage, inputs: Optional[List[Any]] = None) -> Non
             info["tags"][t] = info["tags"].get(t, 0) + 1
         if stage.nontrivial(c):
             ctx.nontrivial.add(digest(c))
-        if v.startswith("note:"):
-            # the case deviates from the specification in a way no listed property forbids: reported, never a violation
-            info["ok"] += 1
-            info["spec_deviations"] = info.get("spec_deviations", 0) + 1
-            ctx.deviation(stage.name, inputs[i], v[5:])
-        elif v == "ok":
+        clauses = [x for x in v.split(";") if x and x != "ok"]
+        # a clause named note:... is stricter than any listed property (conformance to the specification's own detail):
+        # reported as a deviation from the specification, never as a violation
+        for x in clauses:
+            if x.startswith("note:"):
+                info["spec_deviations"] = info.get("spec_deviations", 0) + 1
+                ctx.deviation(stage.name, inputs[i], x[5:])
+        clauses = [x for x in clauses if not x.startswith("note:")]
+        if not clauses:
             info["ok"] += 1
             if info["ok"] in (1, 17):
                 ctx.sample({"stage": stage.name, "case": c})
         else:
-            for clause in v.split(";"):
+            for clause in clauses:
                 ctx.violation(stage.name, inputs[i], clause, c)
     info["wall_s"] = round(time.time() - t0, 1)
     ctx.stage_info[stage.name] = info
